@@ -445,11 +445,16 @@ class Builder:
                 args.append(self.array_arg(p.ty, depth))
             elif f.recursive and p.name == 'depth':
                 args.append(Lit('int', self.integer(0, self.size['rec_depth']), None, t=INT))
+            elif p.ty == INT and 'bytes' in self.F and self.chance(8) and not self.is_overloaded(f.name):
+                args.append(self.byte_expr(depth))          # byte -> int coercion in a call
             else:
                 args.append(self.expr(p.ty, depth))
         return Call(f.name, args, t=f.ret)
 
     # -- statements --------------------------------------------------------
+    def is_overloaded(self, name):
+        return sum(1 for f in self.funcs if f.name == name) > 1
+
     def probe(self, e=None):
         """Statements printing a value."""
         if e is None:
@@ -808,7 +813,7 @@ class Builder:
                 params.append(Param(ty, self.chance(10), self.fresh('p')))
         return params
 
-    def gen_func(self, flavor, name=None, ret=None, params=None, recursive=False):
+    def gen_func(self, flavor, name=None, ret=None, params=None, recursive=False, tag=None):
         if ret is None:
             ret = self.weighted([(30, EMPTY), (40, INT)] + ([(12, BOOL)] if 'bools' in self.F else []) +
                                 ([(10, BYTE)] if 'bytes' in self.F else []) + ([(8, STRING)] if 'strings' in self.F else []))
@@ -828,9 +833,10 @@ class Builder:
                         for p in params]]
         self.stmt_budget = self.size['func_stmts']
         stmts = []
-        if name != '@is_you' and self.chance(70):
-            # entry tag makes call order observable
-            stmts.append(ExprStmt(Call('write', [Lit('string', ('<%s>' % name.lstrip('@!')).encode(), None, t=STRING)], t=EMPTY)))
+        if name != '@is_you' and (tag is not None or self.chance(70)):
+            # entry tag makes call order (and the chosen overload) observable
+            text = tag if tag is not None else '<%s>' % name.lstrip('@!')
+            stmts.append(ExprStmt(Call('write', [Lit('string', text.encode(), None, t=STRING)], t=EMPTY)))
         if recursive:
             dv = Var('depth', t=INT)
             base = [Return(None if ret == EMPTY else self.coercing(ret, 1))]
@@ -860,6 +866,31 @@ class Builder:
         self.funcs.append(info)
         self.func_nodes.append(Func(ret, name, params, Block(stmts)))
         return info
+
+    def gen_overload_set(self):
+        """2-4 overloads of one name, differing in scalar type, element type, constness or arity, declared
+        in drawn order; each prints its own tag so that the overload that runs is observable."""
+        name = self.fresh('ov')
+        pool = [[INT], [BYTE], [BOOL], [STRING], [INT, INT], [BYTE, INT], [INT, BYTE], []]
+        if 'arrays' in self.F:
+            pool += [[arr(INT, True)], [arr(INT, False)], [arr(BYTE, True)], [arr(BOOL, True)], [arr(STRING, True)], [arr(BYTE, False)]]
+        if 'bytes' not in self.F:
+            pool = [p for p in pool if BYTE not in p and arr(BYTE, True) not in p and arr(BYTE, False) not in p]
+        if 'bools' not in self.F:
+            pool = [p for p in pool if BOOL not in p and arr(BOOL, True) not in p]
+        if 'strings' not in self.F:
+            pool = [p for p in pool if STRING not in p and arr(STRING, True) not in p]
+        n = self.integer(2, 4)
+        sigs = []
+        for _ in range(n):
+            s_ = self.pick(pool)
+            if s_ not in sigs:
+                sigs.append(s_)
+        ret = self.weighted([(50, EMPTY), (50, INT)])
+        for k, sig in enumerate(sigs):
+            params = [Param(t, is_arr(t) or False, self.fresh('p')) for t in sig]
+            tag = '<%s/%s>' % (name, ','.join(type_src(t) for t in sig))
+            self.gen_func('', name=name, ret=ret, params=params, tag=tag)
 
     def gen_globals(self):
         n = self.integer(0, self.size['globals'])
@@ -1027,16 +1058,8 @@ class Builder:
             if 'recursion' in self.F and self.chance(20):
                 params = [Param(INT, False, 'depth')] + self.gen_params(self.integer(0, 2))
                 self.gen_func(flavor, params=params, recursive=True)
-            elif 'overloads' in self.F and self.chance(15) and flavor == '':
-                # two overloads of one name, distinguished by a scalar parameter type
-                name = self.fresh('ov')
-                t1, t2 = self.pick([(INT, BOOL), (INT, STRING), (BYTE, BOOL), (INT, BYTE)] if 'bools' in self.F and 'strings' in self.F and 'bytes' in self.F else [(INT, INT)])
-                if t1 == t2:
-                    self.gen_func(flavor)
-                else:
-                    ret = self.weighted([(50, EMPTY), (50, INT)])
-                    self.gen_func('', name=name, ret=ret, params=[Param(t1, False, self.fresh('p'))])
-                    self.gen_func('', name=name, ret=ret, params=[Param(t2, False, self.fresh('p'))])
+            elif 'overloads' in self.F and self.chance(18) and flavor == '':
+                self.gen_overload_set()
             else:
                 self.gen_func(flavor)
         if 'tt' in self.F and 'calls' in self.F:
